@@ -86,7 +86,13 @@ def spaces(tier, seed):
                         machine.append({"kind": "machine", "method": method, "w": w, "subpix": subpix, "form": form,
                                         "mask": mask, "inv": inv, "cbca": (k // 2) % 3 == 0, "seed": seed,
                                         "val": (k // 3) % 2 == 0})
+    # long disparity axes: more samples than an 8-bit index can hold while the disparity span stays small
+    longaxis = [{"kind": "long", "nd": nd, "subpix": sp, "type": t, "inv": inv, "rows": rows, "cols": cols}
+                for nd in (255, 256, 257, 300, 521) for sp in (1, 2, 4) for t in ("min", "max")
+                for inv in (-9999, "NaN") for (rows, cols) in ((3, 7), (101, 2))]
     return [
+        {"name": "long disparity axes (255..521 samples, subpix 1/2/4), winner placed at every index class", "level": 1,
+         "cases": longaxis},
         {"name": "single-pixel volumes, all vectors", "level": 0, "cases": singles},
         {"name": "position-coded packed volumes over the block grid", "level": 1, "cases": packed},
         {"name": "real cost volumes through the machine (masks, per-pixel interval grids, subpix, left and right pass)",
@@ -276,9 +282,34 @@ def run_machine(case):
     return {"n": max(1, len(sigs)), "sigs": sigs, "viol": viol[:6], "trivial": 0 if sigs else 1}
 
 
+def run_long(case):
+    nd, sp, t, inv = case["nd"], case["subpix"], case["type"], case["inv"]
+    rows, cols = case["rows"], case["cols"]
+    disps = -3.0 + np.arange(nd) / sp
+    rr, cc = np.meshgrid(np.arange(rows), np.arange(cols), indexing="ij")
+    win = (rr * 37 + cc * 91 + nd) % nd  # winners spread over the whole axis, beyond index 255 when nd allows
+    win[0, 0] = nd - 1
+    win[-1, -1] = min(nd - 1, 256)
+    costs = np.full((rows, cols, nd), 5.0, dtype=np.float32)
+    costs[rr, cc, win] = 1.0 if t == "min" else 9.0
+    costs[rr, cc, (win + 3) % nd] = np.nan
+    costs[0, cols - 1, :] = np.nan  # one pixel without any cost
+    viol = []
+    before, cv, out = _call(costs, disps, t, inv)
+    _check(case, costs, disps, t, inv, before, cv, out, viol)
+    for v in viol:
+        v["key"] += "/long-axis"
+    import hashlib  # pylint: disable=import-outside-toplevel
+
+    dig = hashlib.sha1(np.nan_to_num(out["disparity_map"].data, nan=-7777.0).tobytes()).hexdigest()[:10]
+    return {"n": 1, "sigs": [f"l|{nd}|{sp}|{t}|{inv}|{rows}|{dig}"], "viol": viol[:5]}
+
+
 def run_case(case):
     if case["kind"] == "machine":
         return run_machine(case)
+    if case["kind"] == "long":
+        return run_long(case)
     alpha = [np.nan, 0.0, 1.0, 2.0, 3.0][: case["na"]]
     nd, t, inv = case["nd"], case["type"], case["inv"]
     vecs = vectors(nd, alpha)
